@@ -9,137 +9,15 @@ import (
 	"fmt"
 	"os"
 	"testing"
-	"time"
 
 	kafka "github.com/segmentio/kafka-go"
-	"github.com/segmentio/kafka-go/protocol"
 
 	"verif/engine/bub"
 	"verif/engine/fk"
 	"verif/engine/seqx"
+	"verif/harness/connops"
 	"verif/harness/hx"
 )
-
-type op struct {
-	name  string
-	key   protocol.ApiKey
-	vers  map[protocol.ApiKey]fk.VRange
-	run   func(c *kafka.Conn) (string, error)
-	errAt string // answer prefix for the injected error ("err" or "err@top")
-}
-
-func ops() []op {
-	var l []op
-	for _, v := range []int16{2, 3, 7} {
-		v := v
-		for _, codec := range []string{"none", "gzip"} {
-			codec := codec
-			l = append(l, op{name: fmt.Sprintf("produce-v%d-%s", v, codec), key: protocol.Produce, vers: map[protocol.ApiKey]fk.VRange{protocol.Produce: {0, v}},
-				run: func(c *kafka.Conn) (string, error) {
-					var n int
-					var err error
-					if codec == "gzip" {
-						n, err = c.WriteCompressedMessages(kafka.Gzip.Codec(), kafka.Message{Value: []byte("new")})
-					} else {
-						n, err = c.WriteMessages(kafka.Message{Value: []byte("new")})
-					}
-					return fmt.Sprint("n=", n), err
-				}})
-		}
-	}
-	for _, v := range []int16{2, 5, 10} {
-		v := v
-		l = append(l, op{name: fmt.Sprintf("fetch-v%d", v), key: protocol.Fetch, vers: map[protocol.ApiKey]fk.VRange{protocol.Fetch: {0, v}},
-			run: func(c *kafka.Conn) (string, error) {
-				b := c.ReadBatch(1, 1<<20)
-				s, err := hx.ReadAll(b, 100)
-				cerr := b.Close()
-				if cerr != nil {
-					return s + " close=" + hx.ErrString(cerr), cerr
-				}
-				if hx.ErrString(err) == "io.EOF" {
-					err = nil
-				}
-				return s, err
-			}})
-	}
-	l = append(l, op{name: "fetch-v10-toperr", key: protocol.Fetch, errAt: "err@top", run: func(c *kafka.Conn) (string, error) {
-		b := c.ReadBatch(1, 1<<20)
-		s, err := hx.ReadAll(b, 100)
-		cerr := b.Close()
-		if cerr != nil {
-			return s, cerr
-		}
-		if hx.ErrString(err) == "io.EOF" {
-			err = nil
-		}
-		return s, err
-	}})
-	l = append(l,
-		op{name: "first-offset", key: protocol.ListOffsets, run: func(c *kafka.Conn) (string, error) { o, err := c.ReadFirstOffset(); return fmt.Sprint(o), err }},
-		op{name: "last-offset", key: protocol.ListOffsets, run: func(c *kafka.Conn) (string, error) { o, err := c.ReadLastOffset(); return fmt.Sprint(o), err }},
-		op{name: "offset-at", key: protocol.ListOffsets, run: func(c *kafka.Conn) (string, error) {
-			o, err := c.ReadOffset(time.UnixMilli(1500))
-			return fmt.Sprint(o), err
-		}},
-		op{name: "offsets", key: protocol.ListOffsets, run: func(c *kafka.Conn) (string, error) { a, b, err := c.ReadOffsets(); return fmt.Sprint(a, b), err }},
-		op{name: "seek-end", key: protocol.ListOffsets, run: func(c *kafka.Conn) (string, error) { o, err := c.Seek(0, kafka.SeekEnd); return fmt.Sprint(o), err }},
-	)
-	for _, v := range []int16{1, 6} {
-		v := v
-		l = append(l, op{name: fmt.Sprintf("partitions-v%d", v), key: protocol.Metadata, vers: map[protocol.ApiKey]fk.VRange{protocol.Metadata: {0, v}},
-			run: func(c *kafka.Conn) (string, error) {
-				ps, err := c.ReadPartitions("t", "u")
-				s := ""
-				for _, p := range ps {
-					s += fmt.Sprintf("%s/%d@%d ", p.Topic, p.ID, p.Leader.ID)
-				}
-				return s, err
-			}})
-	}
-	l = append(l,
-		op{name: "brokers", key: protocol.Metadata, run: func(c *kafka.Conn) (string, error) { b, err := c.Brokers(); return fmt.Sprint(len(b)), err }},
-		op{name: "controller", key: protocol.Metadata, run: func(c *kafka.Conn) (string, error) { b, err := c.Controller(); return fmt.Sprint(b.ID), err }},
-		op{name: "api-versions", key: protocol.ApiVersions, run: func(c *kafka.Conn) (string, error) { v, err := c.ApiVersions(); return fmt.Sprint(len(v)), err }},
-		op{name: "find-coordinator", key: protocol.FindCoordinator, run: func(c *kafka.Conn) (string, error) { return kafka.VerifFindCoordinator(c, "g") }},
-		op{name: "join-group", key: protocol.JoinGroup, run: func(c *kafka.Conn) (string, error) {
-			g, m, l, n, err := kafka.VerifJoinGroup(c, "g", "", []string{"t"})
-			return fmt.Sprint(g, m != "", l != "", n), err
-		}},
-		op{name: "join-group-v1", key: protocol.JoinGroup, vers: map[protocol.ApiKey]fk.VRange{protocol.JoinGroup: {0, 1}}, run: func(c *kafka.Conn) (string, error) {
-			g, m, l, n, err := kafka.VerifJoinGroup(c, "g", "", []string{"t"})
-			return fmt.Sprint(g, m != "", l != "", n), err
-		}},
-		op{name: "sync-group", key: protocol.SyncGroup, run: func(c *kafka.Conn) (string, error) {
-			b, err := kafka.VerifSyncGroup(c, "g", 1, "member-x", map[string][]byte{"member-x": []byte("a")})
-			return fmt.Sprintf("%q", b), err
-		}},
-		op{name: "heartbeat", key: protocol.Heartbeat, run: func(c *kafka.Conn) (string, error) { return "", kafka.VerifHeartbeat(c, "g", 1, "member-x") }},
-		op{name: "leave-group", key: protocol.LeaveGroup, run: func(c *kafka.Conn) (string, error) { return "", kafka.VerifLeaveGroup(c, "g", "member-x") }},
-		op{name: "offset-commit", key: protocol.OffsetCommit, run: func(c *kafka.Conn) (string, error) { return "", kafka.VerifOffsetCommit(c, "g", -1, "", "t", 0, 3) }},
-		op{name: "offset-fetch", key: protocol.OffsetFetch, run: func(c *kafka.Conn) (string, error) { return kafka.VerifOffsetFetch(c, "g", "t", []int32{0}) }},
-		op{name: "create-topics", key: protocol.CreateTopics, run: func(c *kafka.Conn) (string, error) {
-			return "", c.CreateTopics(kafka.TopicConfig{Topic: "new", NumPartitions: 1, ReplicationFactor: 1})
-		}},
-		op{name: "delete-topics", key: protocol.DeleteTopics, run: func(c *kafka.Conn) (string, error) { return "", c.DeleteTopics("u") }},
-	)
-	return l
-}
-
-func mkCluster(a, b *op) *fk.Cluster {
-	c := hx.NewCluster()
-	over := map[protocol.ApiKey]fk.VRange{}
-	for _, o := range []*op{a, b} {
-		if o != nil {
-			for k, v := range o.vers {
-				over[k] = v
-			}
-		}
-	}
-	vs := hx.Versions(over)
-	c.Versions = map[int]map[protocol.ApiKey]fk.VRange{1: vs, 2: vs}
-	return c
-}
 
 func TestCheck(t *testing.T) {
 	s := seqx.New(t)
@@ -148,15 +26,15 @@ func TestCheck(t *testing.T) {
 	if thorough {
 		codes = []int16{6, 1, 19, 3, 27, 16, 25, 22, 7, 5, 29, 41, 15}
 	}
-	all := ops()
+	all := connops.Ops()
 
 	// reference: op2 alone on a fresh connection
-	fresh := func(o1, o2 *op) (string, string) {
+	fresh := func(o1, o2 *connops.Op) (string, string) {
 		var res, es string
 		bub.Run(t, 0, func() {
-			c := mkCluster(o1, o2)
+			c := connops.MkCluster(o1, o2)
 			conn, _ := hx.Conn(c, "t", 0)
-			r, err := o2.run(conn)
+			r, err := o2.Run(conn)
 			res, es = r, hx.ErrString(err)
 			conn.Close()
 		})
@@ -173,20 +51,20 @@ func TestCheck(t *testing.T) {
 					break
 				}
 				code := code
-				id := fmt.Sprintf("%s err=%d then %s", o1.name, code, o2.name)
+				id := fmt.Sprintf("%s err=%d then %s", o1.Name, code, o2.Name)
 				s.Case(id, id, func() (string, *seqx.Viol) {
 					var v *seqx.Viol
 					key := ""
 					wantRes, wantErr := fresh(o1, o2)
 					br := bub.Run(t, 0, func() {
-						c := mkCluster(o1, o2)
+						c := connops.MkCluster(o1, o2)
 						injected := false
-						prefix := o1.errAt
+						prefix := o1.ErrAt
 						if prefix == "" {
 							prefix = "err"
 						}
 						c.Script = func(e *fk.Entry) string {
-							if e.Key == o1.key && !injected {
+							if e.Key == o1.Key && !injected {
 								injected = true
 								return fmt.Sprintf("%s:%d", prefix, code)
 							}
@@ -194,23 +72,23 @@ func TestCheck(t *testing.T) {
 						}
 						conn, cid := hx.Conn(c, "t", 0)
 						defer conn.Close()
-						_, err1 := o1.run(conn)
+						_, err1 := o1.Run(conn)
 						e1 := hx.ErrString(err1)
-						key = o1.name + ":" + e1
+						key = o1.Name + ":" + e1
 						if !injected {
 							key += ":not-injected"
 							return
 						}
 						un1 := c.Unconsumed(cid) + kafka.VerifBuffered(conn)
-						r2, err2 := o2.run(conn)
+						r2, err2 := o2.Run(conn)
 						e2 := hx.ErrString(err2)
 						switch {
 						case hx.IsKafkaErr(err1) && un1 != 0:
-							v = &seqx.Viol{Sig: fmt.Sprintf("residual:%s:%d", o1.name, un1), Msg: fmt.Sprintf("%s answered with error code %d returned %s and left %d unread response bytes on the connection", o1.name, code, e1, un1)}
+							v = &seqx.Viol{Sig: fmt.Sprintf("residual:%s:%d", o1.Name, un1), Msg: fmt.Sprintf("%s answered with error code %d returned %s and left %d unread response bytes on the connection", o1.Name, code, e1, un1)}
 						case hx.IsKafkaErr(err1) && (r2 != wantRes || e2 != wantErr):
-							v = &seqx.Viol{Sig: fmt.Sprintf("next-op-differs:%s", o1.name), Msg: fmt.Sprintf("after %s failed with %s, %s returned (%q, %s); on a fresh connection it returns (%q, %s)", o1.name, e1, o2.name, r2, e2, wantRes, wantErr)}
+							v = &seqx.Viol{Sig: fmt.Sprintf("next-op-differs:%s", o1.Name), Msg: fmt.Sprintf("after %s failed with %s, %s returned (%q, %s); on a fresh connection it returns (%q, %s)", o1.Name, e1, o2.Name, r2, e2, wantRes, wantErr)}
 						case !hx.IsKafkaErr(err1) && err1 != nil && err2 == nil:
-							v = &seqx.Viol{Sig: fmt.Sprintf("reused-after-failure:%s", o1.name), Msg: fmt.Sprintf("%s failed with non-Kafka error %s but the connection was used again successfully by %s", o1.name, e1, o2.name)}
+							v = &seqx.Viol{Sig: fmt.Sprintf("reused-after-failure:%s", o1.Name), Msg: fmt.Sprintf("%s failed with non-Kafka error %s but the connection was used again successfully by %s", o1.Name, e1, o2.Name)}
 						}
 						key += " -> " + e2
 					})
@@ -234,15 +112,15 @@ func TestCheck(t *testing.T) {
 					continue
 				}
 				fault := fault
-				id := fmt.Sprintf("%s %s then %s", o1.name, fault, o2.name)
+				id := fmt.Sprintf("%s %s then %s", o1.Name, fault, o2.Name)
 				s.Case(id, id, func() (string, *seqx.Viol) {
 					var v *seqx.Viol
 					key := ""
 					br := bub.Run(t, 0, func() {
-						c := mkCluster(o1, o2)
+						c := connops.MkCluster(o1, o2)
 						injected := false
 						c.Script = func(e *fk.Entry) string {
-							if e.Key == o1.key && !injected {
+							if e.Key == o1.Key && !injected {
 								injected = true
 								return fault
 							}
@@ -250,17 +128,17 @@ func TestCheck(t *testing.T) {
 						}
 						conn, _ := hx.Conn(c, "t", 0)
 						defer conn.Close()
-						_, err1 := o1.run(conn)
+						_, err1 := o1.Run(conn)
 						if !injected {
 							key = "not-injected"
 							return
 						}
-						_, err2 := o2.run(conn)
-						key = o1.name + ":" + hx.ErrString(err1) + " -> " + hx.ErrString(err2)
+						_, err2 := o2.Run(conn)
+						key = o1.Name + ":" + hx.ErrString(err1) + " -> " + hx.ErrString(err2)
 						if err1 == nil {
-							v = &seqx.Viol{Sig: "fault-unnoticed:" + o1.name, Msg: fmt.Sprintf("%s returned no error although its response was %s", o1.name, fault)}
+							v = &seqx.Viol{Sig: "fault-unnoticed:" + o1.Name, Msg: fmt.Sprintf("%s returned no error although its response was %s", o1.Name, fault)}
 						} else if err2 == nil {
-							v = &seqx.Viol{Sig: "reused-after-failure:" + o1.name, Msg: fmt.Sprintf("after %s failed with %s (%s), %s succeeded on the same connection", o1.name, hx.ErrString(err1), fault, o2.name)}
+							v = &seqx.Viol{Sig: "reused-after-failure:" + o1.Name, Msg: fmt.Sprintf("after %s failed with %s (%s), %s succeeded on the same connection", o1.Name, hx.ErrString(err1), fault, o2.Name)}
 						}
 					})
 					if br.Panic != "" {
